@@ -197,6 +197,7 @@ where
                 // posted transfer, AMQP §4.4.1); non-transactional sessions return `None`.
                 // The transaction discharge path routes its own reply via
                 // `SessionControl::Disposition` instead.
+                self.session.on_incoming_transfer_frame();
                 if let Some(disposition) = self
                     .session
                     .on_incoming_transfer(performative, payload)
